@@ -374,6 +374,51 @@ func (c *Ctx) ContributionRules(prop string) {
 					c.R.Fail(rule4, Fn(H), c.Pos(d), "an undecodable share or vector entry is passed on to the process service", "decode errors return before OnContribute", an.PathString(c.Pos, path))
 				}
 			}
+			// decode helpers: a module helper that decodes and returns a nil error only past the nil-error edge of each of its
+			// Deserialize calls counts as a decode step of the handler
+			for _, hc := range Calls(H, func(d ssa.CallInstruction) bool {
+				f := d.Common().StaticCallee()
+				return f != nil && prog.InModule(f) && f.Blocks != nil && !d.Common().IsInvoke() && errResultIndex(f) >= 0
+			}) {
+				P := hc.Common().StaticCallee()
+				ds := Calls(P, func(d ssa.CallInstruction) bool {
+					f := d.Common().StaticCallee()
+					return f != nil && f.Name() == "Deserialize" && errResultIndex2(d.Common().Signature()) >= 0
+				})
+				if len(ds) == 0 {
+					continue
+				}
+				okP := true
+				for _, d := range ds {
+					errs := map[ssa.Value]bool{}
+					for _, e := range errValuesOfCall(d) {
+						errs[e] = true
+					}
+					if x, path := an.Cut(an.CutQuery{From: an.After(d), Target: func(i ssa.Instruction) bool { return isNilReturn(i, P) },
+						AcceptEdge: func(b *ssa.BasicBlock, i int, a *an.Atom) bool { return errNilAtom(a, errs) }}); x != nil {
+						okP = false
+						bad = true
+						c.R.Fail(rule4, Fn(P), c.Pos(d), "a decode helper can report success although an entry could not be decoded", "nil error only past the nil-error edge of every Deserialize", an.PathString(c.Pos, path))
+					}
+				}
+				if !okP {
+					continue
+				}
+				errs := map[ssa.Value]bool{}
+				for _, e := range errValuesOfCall(hc) {
+					errs[e] = true
+				}
+				target := ci.(ssa.Instruction)
+				if !an.Reachable(an.After(hc), target) {
+					continue
+				}
+				nd += len(ds)
+				if x, path := an.Cut(an.CutQuery{From: an.After(hc), Target: func(i ssa.Instruction) bool { return i == target },
+					AcceptEdge: func(b *ssa.BasicBlock, i int, a *an.Atom) bool { return errNilAtom(a, errs) }}); x != nil {
+					bad = true
+					c.R.Fail(rule4, Fn(H), c.Pos(hc), "an undecodable share or vector entry is passed on to the process service", "decode errors return before OnContribute", an.PathString(c.Pos, path))
+				}
+			}
 			if nd < 2 {
 				c.R.Fail(rule4, Fn(H), c.Pos(ci), "share and vector are not both decoded with error checking", "Deserialize(share), Deserialize(vector[i])", nil)
 			} else if !bad {
